@@ -247,6 +247,87 @@ def purge_family(r: common.Rng) -> dict:
     return {"suite": "strl", "parts": parts, "avail": pids, "now": 0, "gran": 1, "tree": {"t": "obj", "name": "O", "ch": ch}}
 
 
+def window_family(r: common.Rng, quirks: bool = True) -> dict:
+    """Trees over WindowedChoose / MalleableChoose leaves (plus the plain kinds): alone, under Min / LessThan / Scale,
+    as the options of a Max (several strategies of one task), next to Allocations and plain Chooses competing for the
+    same partitions.  Most windows are `clean` (window ends on the node's grid, opens no earlier than `now`, node
+    granularity = granularity of the capacity map: how schedulers/tetrisched_scheduler.py builds them); with `quirks`
+    a share of the nodes has an off-grid window, a window that opened in the past, or a granularity of its own."""
+    k = itertools.count()
+    tk = itertools.count()
+    g = r.choice([1, 1, 1, 2, 2, 3])
+    np_ = r.choice([1, 2, 2])
+    parts = [{"id": i, "name": f"P{i}", "qty": r.choice([1, 1, 2, 2, 3])} for i in range(np_)]
+    pids = [p["id"] for p in parts]
+    now = r.choice([0, 0, 0, 1, 2])
+    quirky = quirks and r.random() < 0.35        # the tree as a whole is clean or quirky: a clean tree has no excuse
+    with_malleable = r.random() < 0.3
+
+    def some_parts():
+        return r.sample(pids, r.randint(1, len(pids)))
+
+    def wchoose(task=None):
+        clean = not quirky or r.random() < 0.4
+        gw = g if clean else r.choice([1, 2, 3])
+        if clean:
+            lo = gw * r.randint(0, 4 // gw)
+            while lo < now:
+                lo += gw
+            hi = lo + gw * r.randint(0, 3 if gw == 1 else 2)
+        else:
+            lo = r.randint(0, 4)
+            hi = lo + r.randint(0, 4)
+        return {"t": "wchoose", "name": task or f"T{next(tk)}", "parts": some_parts(), "n": r.randint(1, 3), "start": lo, "dur": r.choice([1, 1, 2, 2, 3]),
+                "end": hi, "gran": gw, "u": r.randint(1, 5)}
+
+    def mchoose():
+        clean = not quirky or r.random() < 0.4
+        gm = g if clean else r.choice([1, 2])
+        lo = g * r.randint(0, 3 // g) if clean else r.randint(0, 3)
+        while clean and lo < now:
+            lo += g
+        return {"t": "mchoose", "name": f"T{next(tk)}", "parts": some_parts(), "n": r.randint(1, 3), "start": lo, "end": lo + gm * r.randint(1, 3),
+                "gran": gm, "u": r.randint(1, 5)}
+
+    def choose(task=None):
+        return {"t": "choose", "name": task or f"T{next(tk)}", "parts": some_parts(), "n": r.randint(1, 3), "start": g * r.randint(0, max(1, 6 // g)),
+                "dur": r.choice([1, 1, 2, 2, 3]), "u": r.randint(1, 5)}
+
+    def node(depth):
+        kinds = ["wchoose", "wchoose", "wchoose", "choose", "maxw", "maxw", "alloc"] + (["mchoose", "mchoose"] if with_malleable else [])
+        if depth < 3:
+            kinds += ["min", "min", "lt", "lt", "lt", "scale"]
+        kd = r.choice(kinds)
+        if kd == "wchoose":
+            return wchoose()
+        if kd == "mchoose":
+            return mchoose()
+        if kd == "choose":
+            return choose()
+        if kd == "alloc":
+            p = r.choice(parts)
+            return {"t": "alloc", "name": f"A{next(k)}", "allocs": [[p["id"], r.randint(0, max(1, p["qty"]))]], "start": g * r.randint(0, max(1, 4 // g)), "dur": r.choice([1, 2, 3])}
+        if kd == "maxw":
+            task = f"T{next(tk)}"
+            ch = [wchoose(task)]
+            for _ in range(r.randint(0, 2)):
+                ch.append(wchoose(task) if r.random() < 0.6 else choose(task))
+            r.shuffle(ch)
+            return {"t": "max", "name": f"M{next(k)}", "ch": ch}
+        if kd == "min":
+            return {"t": "min", "name": f"N{next(k)}", "ch": [node(depth + 1) for _ in range(r.randint(1, 3))]}
+        if kd == "lt":
+            return {"t": "lt", "name": f"L{next(k)}", "ch": [node(depth + 1), node(depth + 1)]}
+        return {"t": "scale", "name": f"S{next(k)}", "f": r.choice([1, 2, 3]), "disregard": r.random() < 0.3, "ch": [node(depth + 1)]}
+
+    tree = {"t": "obj", "name": "O", "ch": [node(1) for _ in range(r.randint(1, 3))]}
+    if not any(n["t"] in ("wchoose", "mchoose") for n in walk(tree)):
+        tree["ch"].append(wchoose())
+    if with_malleable and not any(n["t"] == "mchoose" for n in walk(tree)):
+        tree["ch"].append(mchoose())
+    return {"suite": "strl", "parts": parts, "avail": pids, "now": now, "gran": g, "tree": tree}
+
+
 def walk(n):
     yield n
     for c in n.get("ch", []):
